@@ -51,7 +51,7 @@ prop('C17',
               'Resume is verified for a fresh start (c == nil); resuming from a checkpoint trusts the checkpoint\'s own fields'],
      not_decided='that each whitelisted file comes out identical to full application as one statement (it follows from processFile handing the same message range to processRsync/processBsdiff, whose stream consumption is under contract, see C10); reads of the recording pool')
 
-WSYNC_DIFF = [('/wsync', '(*Context).findUniqueHash'), ('/wsync', '(*Context).ComputeDiff$2'), ('/wsync', '(*Context).ComputeDiff'),
+WSYNC_DIFF = [('/wsync', 'NewBlockLibrary'), ('/wsync', '(*Context).findUniqueHash'), ('/wsync', '(*Context).ComputeDiff$2'), ('/wsync', '(*Context).ComputeDiff'),
               ('/wsync', '(*Context).ApplySingleFull'), ('/wsync', 'makeOperationCleaner$1')]
 
 prop('C11',
@@ -164,19 +164,25 @@ PROPERTIES['C10']['functions'] += REDIFF
 PROPERTIES['C07']['functions'] += REDIFF
 
 BOWL_LISTS = [('/pwr/bowl', '(*overlayBowl).markMove'), ('/pwr/bowl', '(*overlayBowl).markOverlay'), ('/pwr/bowl', '(*overlayBowl).GetWriter')]
+BOWL_COMMIT = [('/pwr/bowl', '(*overlayBowl).copy'), ('/pwr/bowl', '(*overlayBowl).move'), ('/pwr/bowl', '(*overlayBowl).applyMoves'),
+               ('/pwr/bowl', '(*overlayBowl).applyOverlays$1'), ('/pwr/bowl', '(*overlayBowl).applyOverlays')]
+BOWL_FRESH = [('/pwr/bowl', '(*freshBowl).Transpose'), ('/pwr/bowl', '(*freshBowl).GetWriter'), ('/pwr/bowl', '(*freshEntryWriter).Resume'),
+              ('/pwr/bowl', '(*freshEntryWriter).Save'), ('/pwr/bowl', '(*freshEntryWriter).Write')]
+PROPERTIES['C09']['functions'] += [('/pwr/bowl', '(*freshBowl).Transpose')]
+PROPERTIES['C01']['functions'] += BOWL_FRESH
 HEALER = [('/pwr', '(*ArchiveHealer).Do$4'), ('/pwr', 'NewHealer')]
 PROPERTIES['C06']['functions'] += HEALER
 PROPERTIES['C06']['not_decided'] = 'the healing worker (heal / healOne: that the zip entry written is the signed content; ctxcopy under C15); the interleaving of validator and healer on the same tree; the resulting directory as a whole; FILE wounds are only proved to be queued at most once'
 
 prop('C02',
-     functions=BOWL_LISTS + [('/pwr/bowl', '(*overlayBowl).ensureDirsAndSymlinks$1')] + OVERLAY + OVERLAY_ENTRY,
+     functions=BOWL_LISTS + BOWL_COMMIT + [('/pwr/bowl', '(*overlayBowl).ensureDirsAndSymlinks$1')] + OVERLAY + OVERLAY_ENTRY,
      assumes=['A-FS: ghost model of the entry at one path (nothing / directory / other) with in-context contracts of screw.Lstat, RemoveAll, MkdirAll',
               'fspool.GetPath(stagePool, i) lies in the stage folder (the pool was built over StageFolder in NewOverlayBowl: not under contract)',
               'A-POOL; everything C14 assumes for the overlay stream'],
      not_decided='the commit phase as a whole: applyTranspositions (clash-free renames over map iteration orders), applyMoves, applyOverlays + truncation, deleteGhosts -- relations between whole directory trees over all path-level shapes and all map orders are not expressible as function contracts within reach of this engine (no file-system tree model); "the old build is untouched until Commit" is proved only as: every entry writer handed out during patching is given the stage path of its file, and overlay writers read the old file through the read-only pool')
 
 prop('C03',
-     functions=BOWL_LISTS + OVERLAY_ENTRY + WIRE_ALL + PATCHER + PATCHER_SERIES + [('/pwr/overlay', 'NewOverlayWriter'), ('/pwr/overlay', '(*overlayWriter).Finalize'), ('/pwr/overlay', '(*OverlayPatchContext).Patch')],
+     functions=BOWL_LISTS + BOWL_FRESH + OVERLAY_ENTRY + WIRE_ALL + PATCHER + PATCHER_SERIES + [('/pwr/overlay', 'NewOverlayWriter'), ('/pwr/overlay', '(*overlayWriter).Finalize'), ('/pwr/overlay', '(*OverlayPatchContext).Patch')],
      assumes=['A-SAVIOR, A-COMP, A-PROTO, A-IO as in C13', 'A-FS: OpenFile without O_TRUNC keeps the bytes already on disk; Seek positions absolutely',
               'patcher functions are verified for a fresh start; the checkpoint handed to a new patcher is a serialized copy of one the patcher produced (gob round trip outside /repo)'],
      not_decided='the property itself quantifies over crash points, save schedules and partially persisted writes: no function contract states "resume from checkpoint k after a crash at any later point equals the uninterrupted run" -- that needs a crash/persistence model relating disk state to checkpoints, which this family does not have here.  What is decided are the per-layer obligations the argument rests on: wire save protocol and Resume offsets (C13), entry writers flush+sync before reporting offsets and reopen without truncation at exactly those offsets, overlay stream self-terminated and header only at offset 0 (C14), bowl work lists stay duplicate-free sets when a file is re-processed, no stale per-file checkpoint enters the next file.  Fresh-bowl entry writers, Transpose de-duplication, gob registration and decompressor checkpoints are not under contract')
